@@ -107,7 +107,7 @@ func runProperty(eng *Engine, o *Options, start time.Time) int {
 		if ct.Trusted {
 			continue
 		}
-		if contractServes(ct, prop) {
+		if contractServes(ct, prop) && ct.Opts["inline"] == "" {
 			keys = append(keys, k)
 		}
 	}
@@ -116,6 +116,9 @@ func runProperty(eng *Engine, o *Options, start time.Time) int {
 		var all []string
 		for k, fn := range eng.funcs {
 			if fn.Pkg == nil || fn.Pkg.Pkg != eng.home || fn.Synthetic != "" || len(fn.Blocks) == 0 || fn.Name() == "init" {
+				continue
+			}
+			if ct := eng.contracts.Funcs[k]; ct != nil && ct.Opts["inline"] != "" {
 				continue
 			}
 			all = append(all, k)
